@@ -253,6 +253,12 @@ def pushdata(ctx):
                 ctx.violate(q, 'data of %d..%d bytes is packed as the constant %s: the item is dropped from the script (an empty push is the byte 00)' % (a, b, leaf.hex() or "b''"), fn,
                             'Script([OP_DUP, b"", OP_EQUAL]).serialize() loses the empty push: another script, another hash, fewer items when parsed back')
             continue
+        if isinstance(leaf, tuple) and leaf and leaf[0] == 'call' and leaf[1] in ('varstr',) and leaf[2] and leaf[2][0] == data:
+            # the CompactSize helper is no push encoder: it returns the single byte 00 unprefixed (the library's marker for an empty
+            # witness item, known finding D14) and switches to fd / fe / ff prefixes where a script needs 4c / 4d
+            ctx.violate(q, 'data of %d..%d bytes is packed with %s(data): the item 00 becomes the bytes `00` (OP_0, an empty push) instead of `01 00`' % (a, b, leaf[1]), fn,
+                        'Script([OP_RETURN, b"\\x00"]).serialize() is 6a00 instead of 6a0100: parsing it back gives opcode 0, not the item')
+            continue
         if not parts or parts[-1] != data:
             ctx.undecided('data_pack leaf does not end with the data: %s' % show(leaf))
         pw = _leaf_prefix_width(('cat', tuple(parts[:-1])), ln)
@@ -687,3 +693,6 @@ PROP.obligation('C18.attr-memos')(_c19.attr_memos)
 
 
 PROP.obligation('C18.small-int-opcodes')(_c19.dispatch)
+
+
+PROP.obligation('C18.arith-guard')(_c19.arith_guard)
